@@ -296,7 +296,7 @@ func main() {
 			good := (best.Status == "unsat" && !expectSat) || (expectSat && best.Status != "unsat")
 			if !*dump {
 				base := o.Func + "__" + o.Name
-				for _, suf := range []string{"", ".ground", ".lite", ".tight"} {
+				for _, suf := range []string{"", ".ground", ".lite", ".tight", ".micro"} {
 					p := queryPath(qdir, base+suf)
 					if good || p != file {
 						os.Remove(p)
@@ -310,6 +310,49 @@ func main() {
 		}(i, o)
 	}
 	wg.Wait()
+	// second chance for a few undecided obligations: the first pass runs 14 solver portfolios at once, and a
+	// query that needs most of its budget can time out under that load. They are re-run three at a time with
+	// three times the budget, so that a pass does not depend on machine load.
+	var undecided []int
+	for i, r := range results {
+		if !r.MustFail && !r.Cover && (r.Status == "timeout" || r.Status == "unknown") {
+			undecided = append(undecided, i)
+		}
+	}
+	if len(undecided) > 0 && len(undecided) <= 8 {
+		sem2 := make(chan struct{}, 3)
+		var wg2 sync.WaitGroup
+		for _, i := range undecided {
+			wg2.Add(1)
+			go func(i int) {
+				defer wg2.Done()
+				sem2 <- struct{}{}
+				defer func() { <-sem2 }()
+				o := obls[i]
+				best, all, file := solveOb(o, qdir, 3*to, false, false)
+				if best.Status == "unsat" {
+					r := results[i]
+					r.Status, r.Solver, r.Secs = best.Status, best.Solver+"(retry)", best.Secs
+					var ag []string
+					for _, x := range all {
+						ag = append(ag, fmt.Sprintf("%s=%s(%.1fs)", x.Solver, x.Status, x.Secs))
+					}
+					r.Agree += ",retry:" + strings.Join(ag, ",")
+					if !*dump {
+						base := o.Func + "__" + o.Name
+						for _, suf := range []string{"", ".ground", ".lite", ".tight", ".micro"} {
+							os.Remove(queryPath(qdir, base+suf))
+						}
+						r.File = ""
+					}
+					results[i] = r
+				} else {
+					_ = file
+				}
+			}(i)
+		}
+		wg2.Wait()
+	}
 	rep.Results = results
 	rep.WallS = time.Since(t0).Seconds()
 	data, _ := json.MarshalIndent(rep, "", " ")
